@@ -478,6 +478,7 @@ def closure_verdict(facts, node, what, env, arg):
     if owner in facts.hir:
         B = hirq.Body(facts, facts.hir[owner])
         I = absx.Interp(facts, B)
+        I.exact_seqs = True         # the empty list an empty `many0` yields is a known sequence
         try:
             outs = I.apply_closure(('closure', node['def']), [arg], absx.St(dict(env)), node)
         except absx.TooManyPaths:
